@@ -307,7 +307,7 @@ def worker(chunk_path):
 def run_jobs(jobs, name):
     """Run jobs in pooled subprocesses; a crashed subprocess is attributed to the job that was running."""
     import subprocess
-    d = os.path.join(WORK, "c20", name)
+    d = os.path.join(WORK, "c20-%d" % os.getpid(), name)
     os.makedirs(d, exist_ok=True)
     nchunk = max(NCPU * 3, len(jobs) // 400 + 1)
     chunks = [jobs[i::nchunk] for i in range(nchunk)]
